@@ -1,5 +1,6 @@
 import Txtpp.Lemmas.MachineSpec
 import Txtpp.Model.Pp
+import Txtpp.Model.Lines
 /-!
 # Property C01 — output conforms to the documented directive semantics
 
@@ -63,5 +64,29 @@ theorem fails_iff {W : Type} (Wd : World W) (le : List Char) (trailing : Bool) (
       | collect deps => simp [he, hpm]
       | firstExec => cases ht : s.tags.hasTags <;> simp [he, hpm, ht]
       | exec => cases ht : s.tags.hasTags <;> simp [he, hpm, ht]
+
+/-! ### reading `render`: the splice rule of the README, as equations -/
+
+/-- an ordinary line owes a line ending: the next chunk starts on a new line -/
+theorem text_line_then_chunk (le : List Char) (tr p b : Bool) (t u : List Char) (rest : List Chunk) :
+    render le tr p (⟨t, true⟩ :: ⟨u, b⟩ :: rest) = (if p then le else []) ++ t ++ (le ++ u ++ render le tr b rest) := by
+  simp [render]
+
+/-- directive output is spliced verbatim: when it is followed by more input (it does not end the
+file) nothing is inserted after it, so a missing final newline joins it to the following text -/
+theorem directive_output_joins_next (le : List Char) (tr p b : Bool) (c u : List Char) (rest : List Chunk) :
+    render le tr p (⟨c, false⟩ :: ⟨u, b⟩ :: rest) = (if p then le else []) ++ c ++ (u ++ render le tr b rest) := by
+  simp [render]
+
+/-- the last owed line ending is written iff the trailing option is on -/
+theorem final_line_ending (le : List Char) (tr p : Bool) (t : List Char) :
+    render le tr p [⟨t, true⟩] = (if p then le else []) ++ t ++ (if tr then le else []) := by
+  simp [render]
+
+/-- a directive's formatted output is its raw output re-split into lines, each indented by the
+directive's leading whitespace, joined by the source's line ending, with a final one iff the raw
+output ended in a newline -/
+theorem formatted_output (le ws raw : List Char) :
+    formatOutput le ws raw = joinWith le ((rustLines raw).map (ws ++ ·)) ++ (if endsNl raw then le else []) := rfl
 
 end C01
